@@ -418,6 +418,47 @@ def gen(ctx, names):
             add(l, "CurrentSong", oracle=False)
     for _ in range(n_valid // 5):
         add(gen_listing(rng, names, n_entries=rng.choice([0, 1])), "CurrentSong")
+    # numeric texts: std's reading is exact on the stated domain (oracle: exact decimal arithmetic),
+    # and the f64 / RFC 3339 syntax classes agree with the model everywhere else (correspondence)
+    n_num = 400 if ctx.tier == "quick" else 30000
+    for i in range(n_num):
+        r = rng.random()
+        key = rng.choice(["duration", "Time"])
+        if r < 0.45:
+            ip = rng.choice([rng.randrange(0, 2 ** 22), rng.randrange(0, 100), 2 ** 22 - 1, 0])
+            nf = rng.randrange(0, 10)
+            txt = rng.choice(["", "", "+", "0", "000"]) + str(ip) + ("." + "".join(rng.choice("0123456789") for _ in range(nf)) if nf or rng.random() < 0.2 else "")
+            if rng.random() < 0.1 and nf:
+                txt = txt.lstrip("+0")          # forms like ".5"
+            listing = [("song", "n.flac", [(key, txt)])]
+            add(listing, rng.choice(MULTI_Q + MULTI_S))
+            continue
+        if r < 0.55:
+            f = str(rng.randrange(0, 2 ** 22)) + rng.choice(["", ".5", ".000000001", ".123456789"])
+            t = rng.choice([None, str(rng.randrange(0, 2 ** 22)) + rng.choice(["", ".25", ".999999999"])])
+            add([("song", "n.flac", [("Range", f, t)])], "Queue")
+            continue
+        if r < 0.8:
+            txt = "".join(rng.choice("0123456789.eE+-infINFat ") for _ in range(rng.choice([1, 2, 3, 5, 8, 12, 25])))
+            fields = [("file", "n.flac"), (rng.choice([key, "Range"]), txt)]
+        elif r < 0.9:
+            txt = gen_ts(rng)
+            if rng.random() < 0.7:
+                txt = list(txt)
+                for _ in range(rng.choice([1, 1, 2])):
+                    j = rng.randrange(len(txt))
+                    if rng.random() < 0.4:
+                        del txt[j]
+                    else:
+                        txt[j] = rng.choice("0123456789-:TZtz +.")
+                txt = "".join(txt)
+            fields = [("file", "n.flac"), ("Last-Modified", txt)]
+        else:
+            txt = rng.choice(["", "+", "-"]) + "".join(rng.choice("0123456789") for _ in range(rng.choice([1, 3, 19, 20, 21, 30])))
+            fields = [("file", "n.flac"), (rng.choice(["Pos", "Id", "Prio"]), txt)]
+        cases.append(f"songs Queue {hexs(wire_of(fields))}")
+        expect.append(None)
+        meta.append(("malformed", fields, "Queue"))
     for _ in range(n_bad):
         fields, exp = gen_malformed(rng, names)
         cmd = rng.choice(MULTI_Q + MULTI_S + ["CurrentSong"])
